@@ -559,7 +559,7 @@ Section RoundTrip.
       assert (Hmap : map_prefix pmap (unop_rule wn uo p) (Some e) = Ok (Some (EUn uo e))).
       { unfold map_prefix. destruct uo; cbn [unop_rule];
           [rewrite H_pneg; reflexivity | destruct (wn p); [rewrite H_pnot | rewrite H_pinv]; reflexivity | discriminate]. }
-      eapply E_prefix; [exact Hops | | exact Hmap | exact HL].
+      eapply E_prefix; [reflexivity | exact Hops | | exact Hmap | exact HL].
       apply operand; [exact (IHe Hwe) | | apply loop_stops; eapply follows_le; [exact Hf | exact Hrle]].
       intro E. split; [|split; [lia|]].
       + apply layers_0_le in E. lia.
@@ -570,7 +570,7 @@ Section RoundTrip.
       eapply post_operand; [exact (IHe Hwf) | exact Hpre | reflexivity | exact H_fact | exact pre_lt_fact | exact Hb | apply Po_fact | exact HL].
     - (* ESpread *)
       cbn [wf] in Hwf. cbn [app].
-      eapply E_prefix; [exact H_spr | | unfold map_prefix; rewrite H_pspr; reflexivity | exact HL].
+      eapply E_prefix; [reflexivity | exact H_spr | | unfold map_prefix; rewrite H_pspr; reflexivity | exact HL].
       eapply E_primary; [reflexivity | apply P_expr; apply items_wrapi; exact (IHe Hwf) |].
       apply loop_stops. exact Hf.
   Qed.
@@ -726,7 +726,7 @@ Section OutputsWf.
   Proof.
     apply parse_rel_mutind.
     - (* E_prefix *)
-      intros rbp r p its x mid u t rest _ _ Hx Hpre _ IH. apply IH.
+      intros rbp i r p its x mid u t rest _ _ _ Hx Hpre _ IH. apply IH.
       unfold map_prefix in Hpre. destruct (assoc_find r pmap) as [[uo|]|] eqn:E; inversion Hpre; subst.
       + cbn [wf]. rewrite Hx. destruct uo; try reflexivity. exfalso. exact (no_invert r E).
       + exact Hx.
